@@ -398,6 +398,10 @@ class RaggedArray(IndexableArray, np.lib.mixins.NDArrayOperatorsMixin):
                 else:
                     new_dtype = np.uint64
                 weights = weights.astype(new_dtype)
+                # bincount adds its weights up in float64: inexact beyond 2**53, and never of the dtype chosen above
+                result = np.zeros(np.max(self.lengths), dtype=new_dtype)
+                np.add.at(result, column_indexes, weights)
+                return result
 
             return np.bincount(column_indexes, weights=weights, minlength=np.max(self.lengths))
             result = np.zeros(np.max(self._shape.lengths), dtype=new_dtype)
